@@ -47,7 +47,7 @@ CLAIMS = {
   "skip_comment, next_field, next_coef, next_bound, next_field_is_number, check_end_of_line, set_end_of_line), modelled with an explicit string terminator: "
   "from every state with the cursor inside the line's string no function reads behind the terminator or dereferences a null cursor, the cursor stays "
   "inside the string, for every file and every call sequence (theorems lplex_safe, mpslex_safe, mpslex_next_line, mpslex_set_end_of_line), and a "
-  "successful LP token read strictly consumes input (lplex_progress: parser loops terminate). The models are tied to /repo by direct sessions on the "
+  "successful LP token read strictly consumes input and a field delivered by the MPS reader's next_field moves the cursor strictly forward (lplex_progress, lex_field_progress: the token and record loops of the parsers terminate). The models are tied to /repo by direct sessions on the "
   "exported lexer functions (text + call sequence, whole observable state compared after every call, memory behind the terminators poisoned with two "
   "patterns so that any dependence on it shows). Everything else is exhibited, not proved: valid files (from the real writers and an independent generator) with token-level mutations (repeated "
   "sections introducing new names, 200-70000 character names, 30000-term lines, pathological literals), byte-level mutations, truncations, random "
